@@ -184,8 +184,7 @@ def guard_of(L):
         if L.sight:
             return lambda o: o.copy(frame=L.frame, form="spherical").phi > 0
         return lambda o: True
-    if isinstance(L, LS.AnomalyListener):
-        return lambda o: abs(L(o)) < 2
+    # AnomalyListener: see run_stream (a genuine crossing of the wrapped difference has |v1 - v0| < pi)
     return lambda o: True
 
 
@@ -228,16 +227,6 @@ def label_rule(L):
     return "derivative"
 
 
-def describe(orb, pkind, kw, listeners):
-    k = orb.copy(form="keplerian")
-    d = {"orbit": [float(x) for x in k], "epoch": str(orb.date), "propagator": pkind,
-         "listeners": [lname(L) for L in listeners]}
-    for a, b in kw.items():
-        if a != "listeners":
-            d[a] = str(b) if not isinstance(b, list) else f"{len(b)} dates"
-    return d
-
-
 def run_stream(out, src, pkind, listeners, kw, desc, forward=True, propagate=None, sharp_us=5, fam_prefix=""):
     """iterate `src.iter(listeners=…, **kw)` and check the generic clauses of the property.
     Returns the list of (orb) of the stream.  `propagate(date)` re-evaluates the trajectory (for sharpness)."""
@@ -276,11 +265,16 @@ def run_stream(out, src, pkind, listeners, kw, desc, forward=True, propagate=Non
         for L in listeners:
             v0, v1 = vals[id(L)][k - 1], vals[id(L)][k]
             expected = _sign(v0) != _sign(v1) and bool(guards[id(L)](s1))
+            wrap = isinstance(L, LS.AnomalyListener) and abs(v1 - v0) >= math.pi
+            if wrap:
+                expected = False     # the jump of the wrapped difference at value +/- pi is not a crossing of the value
+            elif isinstance(L, LS.AnomalyListener) and abs(v1) >= 2:
+                continue             # more than 2 rad from the target at the new sample: the listener's own condition may drop it
             mine = [o for o in evs if o.event.listener is L]
             ln = lname(L)
             out.tally(f"pair:{ln}:{'event' if expected else 'none'}")
             if expected != (len(mine) == 1) or len(mine) > 1:
-                out.fail(fp + ln + (":missed" if expected else ":spurious"),
+                out.fail("anomaly:wraparound-spurious" if (wrap and mine) else fp + ln + (":missed" if expected else ":spurious"),
                          "event emitted iff the watched quantity changes sign between two samples (and the guard holds)",
                          dict(desc, listener=ln, samples=[str(s0.date), str(s1.date)], values=[float(v0), float(v1)]),
                          observed=[str(o.date) + " " + str(o.event.info) for o in mine], expected=int(expected))
@@ -380,6 +374,10 @@ def check_closed_form(out, orb, blocks, L, kind, value, label, desc, tol=1e-3, f
         extra = [t for t in g2 if not any(abs(t - x) <= tol for x in e2)]
         miss = [t for t in e2 if not any(abs(t - x) <= tol for x in g2)]
         fam = f"closed-form:{ln.split('-')[0]}:" + ("spurious" if extra else "missed")
+        if ln.startswith("Anomaly") and extra and not miss:
+            opposite = kepler_times(orb, kind, value + math.pi, lo, hi)
+            if all(any(abs(t - x) <= tol for x in opposite) for t in extra):
+                fam = "anomaly:wraparound-spurious"
         out.fail(fam, f"reported {label or ln} events differ from the closed-form crossing times of the Keplerian motion (tol {tol} s)",
                  dict(desc, listener=ln, value=value), observed=g2[:8], expected=e2[:8], extra=extra[:4], missing=miss[:4])
 
@@ -720,12 +718,6 @@ def _expr(n):
 def _is_super_check(n):
     import ast
     return ast.unparse(n) == "super().check(orb)"
-
-
-def _event_const(classes, call):
-    """label of `MaxEvent(self)` / `self.event(self)`: the string given to Event.__init__ by the event class"""
-    import ast
-    raise Untranslatable(ast.unparse(call))
 
 
 def _body(stmts, env):
